@@ -4,7 +4,13 @@ def det(n, tier, timeout=None):
     return Q('detector_len%d' % n, H, 'h_detector', defines=['LEN=%d' % n], unwind=n + 3, tier=tier, timeout=timeout, witness=(n >= 5),
              bounds='every valid fmt template of length exactly %d over the alphabet { } a 1 : space (6^%d strings; validity assumed via an independent grammar state machine)' % (n, n),
              what='MacroMetadata::_contains_named_args(template) == "some replacement field has an identifier id" (escaped braces, positional ids, specs, adjacent fields)')
-QUERIES = [det(n, 'quick') for n in (2, 3, 4, 5, 6, 7)] + [det(8, 'thorough', 1700), det(9, 'thorough', 1700)]
+def strip(n, tier, timeout=600):
+    return Q('stripper_len%d' % n, 'C19_stripper.cpp', 'h_stripper', defines=['LEN=%d' % n], byteloops=True,
+             hooks=[r'^_ZN8fmtquill3v116formatIJSt17basic_string_viewIcSt11char_traitsIcEERS5_EEENSt7__cxx1112basic_string=vh_fmt_concat'],
+             models=['m_throw.c', 'm_env.c'], libmodels=['m_string.c', 'm_stl.c'], unwind=n + 4, cdefs=['VLL_STR_NOGROW'], tier=tier, timeout=timeout,
+             bounds='every valid named-argument template of exactly %d bytes over { } a b : . (every field named, <= 3 fields, spec without braces)' % n,
+             what='real BackendWorker::_process_named_args_format_message: positional template = the template with exactly the names removed (text, escaped braces and every spec kept); key list = (name, spec) per placeholder in order')
+QUERIES = [strip(5, 'dev'), strip(7, 'dev')] + [det(n, 'quick') for n in (2, 3, 4, 5, 6, 7)] + [det(8, 'thorough', 1700), det(9, 'thorough', 1700)]
 BOUNDS = 'templates <= 8 (quick) / 10 (thorough) bytes over a 6-symbol alphabet'
 OUTSIDE = 'libfmt rendering of the values, JSON well-formedness for arbitrary values, the stripper and the split loop (need a libfmt model; not built)'
 ASSUMPTIONS = ['templates are valid libfmt templates (documented precondition of a log statement); spec text contains no nested braces']
